@@ -185,7 +185,11 @@ def main(tier="quick", seed=0):
     import_repo()
     quick = tier == "quick"
     rng = np.random.default_rng(seed + 9)
-    ENTRIES.update({e.name: e for e in zoo.entries() if not zoo.is_regression(e)})
+    from . import c05
+
+    # registry configurations plus the non-default parameter settings of C05 (metric=..., cost matrices,
+    # dictionaries): helper models built inside a strategy must receive the configured sentinel too
+    ENTRIES.update({e.name: e for e in zoo.entries() + c05.extra_entries() if not zoo.is_regression(e)})
     CLFS.update(clf_makers())
     chk.model_check("MC_Encoding", "MC_Encoding.cfg")
     scenarios = [s for s in chk.generate("PoolGen", "PoolGen.cfg") if s["n"] >= 3 and s["mode"] != "idx-any"]
